@@ -23,7 +23,9 @@ ENTRY = "cassis.json.load_cas_from_json / CasJsonDeserializer.deserialize"
 RULE = (
     "JSON sub-suite of C05.  Documents: (a) what cassis itself writes (type_system_mode FULL / MINIMAL / NONE) for the "
     "scenarios of C02 — random type systems, 1-3 views with ASCII/BMP/astral text (UTF-16 offsets differ from code point "
-    "offsets), mime types, sofa URI / byte arrays, shared and unshared collections, null elements, special floats, "
+    "offsets), mime types, sofa URI / byte arrays (also shared by two sofas, indexed in a view, referenced by a feature or an "
+    "FSArray element: the reader fetches such an array ahead of its turn and must not build it a second time), shared and "
+    "unshared collections, null elements, special floats, "
     "extended DocumentAnnotation; (b) all 14 JSON fixtures of tests/test_files/json (with typesystem.xml where present), "
     "each twice.  Every document is presented in 3 variants by the harness's own writer: %FEATURE_STRUCTURES as array or as "
     "id-keyed object, FS order kept / reversed / shuffled / sofas last (forward references to sofas and to sofa byte "
@@ -46,8 +48,8 @@ TRUSTED = [
     "harness/scen.py canonical observation of the loaded CAS (identity-based traversal, public API)",
     "for fixtures the schema handed to the Coq reader is read from the loaded TypeSystem through the public API "
     "(all_features order); for generated documents it is computed from the scenario (scen.schema_of)",
-    "oracle: canon(variant) == canon(original) and jsonabs.py_denote(variant) (independent Python reading, own UTF-16 count, "
-    "stdlib base64) == canon(variant)",
+    "oracle: one Python object per id in every loaded CAS (identity), canon(variant) == canon(original) and "
+    "jsonabs.py_denote(variant) (independent Python reading, own UTF-16 count, stdlib base64) == canon(variant)",
 ]
 ASSUMPTIONS = list(C02.ASSUMPTIONS) + [
     "documents mention every sofa once, name an existing sofa in every %SOFA and feature structure in every reference "
@@ -154,7 +156,9 @@ def make_variant(doc, v, schema):
 def run_impl(cassis, sc):
     doc, text, mk_ts, merge, schema = _source(cassis, sc)
     loaded = cassis.load_cas_from_json(text, typesystem=mk_ts(), merge_typesystem=merge)
-    obs = {"doc": doc, "canon": scen.canon(loaded, "json"), "variants": []}
+    # identity: one Python object per id (a byte array fetched ahead for a sofa must not be built a second time: d94ad6a)
+    twice = sorted(i for i, n in C02.objects_per_id(loaded).items() if n > 1 and i is not None)
+    obs = {"doc": doc, "twice": twice, "canon": None if twice else scen.canon(loaded, "json"), "variants": []}
     if schema is None:
         schema = schema_from_ts(loaded.typesystem)
         obs["schema"] = {n: {"anc": s["anc"], "feats": [list(f) for f in s["feats"]]} for n, s in schema.items()}
@@ -163,7 +167,10 @@ def run_impl(cassis, sc):
         rec = {"doc": vdoc}
         try:
             vtext = J.emit(vdoc, pretty=v["pretty"], ensure_ascii=v["ascii"])
-            rec["canon"] = scen.canon(cassis.load_cas_from_json(vtext, typesystem=mk_ts(), merge_typesystem=merge), "json")
+            vloaded = cassis.load_cas_from_json(vtext, typesystem=mk_ts(), merge_typesystem=merge)
+            rec["twice"] = sorted(i for i, n in C02.objects_per_id(vloaded).items() if n > 1 and i is not None)
+            if not rec["twice"]:
+                rec["canon"] = scen.canon(vloaded, "json")
         except Exception as e:  # noqa
             rec["error"] = f"{type(e).__name__}: {e}"
         obs["variants"].append(rec)
@@ -194,6 +201,14 @@ def _reachable_only(den, loaded):
 
 
 def oracle(cassis, sc, obs):
+    if obs.get("twice"):
+        return (f"sharing lost: the loaded CAS holds several objects under one id {obs['twice']} (an entry the document lists "
+                f"once -- a sofa byte array also held by another sofa, a view or a feature -- was built twice)")
+    for v, rec in zip(sc["variants"], obs["variants"]):
+        if rec.get("twice"):
+            tag = {k: v[k] for k in ("fs_form", "fs_order", "member_order", "nulls")}
+            return (f"sharing lost in presentation variant {tag}: several objects under one id {rec['twice']} (an entry listed "
+                    f"once was built twice)")
     schema = _schema(cassis, sc, obs)
     want = obs["canon"]
     try:
@@ -221,7 +236,7 @@ def oracle(cassis, sc, obs):
 
 def render(sc, obs):
     import cassis
-    if any("canon" not in rec for rec in obs["variants"]):
+    if obs.get("canon") is None or any("canon" not in rec for rec in obs["variants"]):
         return None
     schema = _schema(cassis, sc, obs)
     src = sc["src"]
@@ -234,7 +249,7 @@ def render(sc, obs):
         strict, embedded = False, not os.path.exists(os.path.join(os.path.dirname(os.path.join(FIX, src["path"])), "typesystem.xml"))
     vs = "[" + ";\n ".join(f"({J.gallina(rec['doc'])}, {scen.g_ccas(rec['canon'])})" for rec in obs["variants"]) + "]"
     t = (f"mkCase05 {scen.g_schema(schema, names)} {'true' if strict else 'false'} {'true' if embedded else 'false'}\n"
-         f" ({J.gallina(obs['doc'])})\n ({scen.g_ccas(obs['canon'])})\n {vs}")
+         f" ({J.gallina(obs['doc'])})\n ({scen.g_ccas(obs['canon'])})\n {vs} true")
     return t.replace("%string", "")
 
 
